@@ -14,7 +14,8 @@ TIMEOUT = {'quick': 1200, 'thorough': 7200}
 MUST_HIT = ['NonInterference.observe-others', 'FreshLoader.compare', 'IdentitySweep.pairs',
             'Mutation.new', 'Mutation.delete', 'Mutation.setattr', 'Mutation.relate', 'Mutation.unrelate',
             'Mutation.append_attribute', 'Mutation.insert_attribute', 'Mutation.delete_attribute',
-            'Mutation.define_unique_identifier', 'Mutation.define_class', 'History.late-create-table', 'History.rejected-input-call',
+            'Mutation.define_unique_identifier', 'Mutation.define_class', 'History.late-create-table', 'History.rejected-input-call', 'History.filename_input', 'History.file_input',
+            'History.file-of-unchanged-size-read-again',
             'Build.generator-integer', 'Build.generator-uuid', 'Build.generator-default']
 MUST_REACH = ['xtuml/load.py:ModelLoader.build_metamodel', 'xtuml/load.py:ModelLoader.populate_classes',
               'xtuml/load.py:ModelLoader.populate_associations', 'xtuml/meta.py:MetaClass.append_attribute',
@@ -218,6 +219,44 @@ def fragments(rng):
     return ['\n'.join(p) + '\n' for p in parts]
 
 
+SCRATCH = []
+
+
+def feed(ctx, rng, loader, text):
+    '''
+    One input call: the text itself, an open file, or the name of a file. The file is always the same path, written
+    anew for every call (a data file that is edited and read again), often padded with blanks to a whole number of
+    512-byte blocks so that its size does not change with its content.
+    '''
+    k = rng.random()
+    if k < 0.6:
+        loader.input(text)
+        return 'input'
+    import atexit
+    import os
+    import shutil
+    import tempfile
+    if not SCRATCH:
+        SCRATCH.append(tempfile.mkdtemp(prefix='pyxtuml-verif-c18-'))
+        atexit.register(shutil.rmtree, SCRATCH[0], True)
+    path = os.path.join(SCRATCH[0], 'data.sql')
+    body = text
+    if rng.random() < 0.6:
+        size = len(body.encode('utf-8'))
+        body += ' ' * (-size % 512)
+        ctx.hit('History.file-of-unchanged-size-read-again')
+    with open(path, 'w', encoding='utf-8', newline='') as f:
+        f.write(body)
+    if k < 0.85:
+        loader.filename_input(path)
+        ctx.hit('History.filename_input')
+        return 'filename_input'
+    with open(path, 'r', encoding='utf-8', newline='') as f:
+        loader.file_input(f)
+    ctx.hit('History.file_input')
+    return 'file_input'
+
+
 def run_history(ctx, rng):
     import xtuml
     loader = xtuml.ModelLoader()
@@ -241,9 +280,9 @@ def run_history(ctx, rng):
     interesting = False
     for step in plan:
         if step[0] == 'input':
-            loader.input(step[1])
+            how = feed(ctx, rng, loader, step[1])
             accepted.append(step[1])
-            log.append(('input', step[1][:60]))
+            log.append((how, step[1][:60]))
         elif step[0] == 'bad-input':
             try:
                 loader.input(step[1])
